@@ -271,6 +271,9 @@ type c05Env struct {
 	flushed map[int]bool
 	// the case contains a bank movement that is not mirrored into the StateDB
 	rawBank bool
+	// nothing but bank movements has happened since the last Commit (the only place the code calls SyncBalances:
+	// inside a precompile's Run, which commits on entry)
+	justFlushed bool
 }
 
 func c05Exec(c Case, prop string) (outs []string, fails []Failure, tags []string) {
@@ -332,6 +335,13 @@ func c05Exec(c Case, prop string) (outs []string, fails []Failure, tags []string
 			arg := func(k int) *big.Int { return mustBig(f[k]) }
 			ad := func(k int) common.Address { return c05Addr(int(arg(k).Int64())) }
 			key := func(k int) common.Hash { return common.BigToHash(arg(k)) }
+			switch f[0] {
+			case "commit":
+				defer func() { env.justFlushed = true }()
+			case "bank", "dump", "sync", "noop":
+			default:
+				env.justFlushed = false
+			}
 			switch f[0] {
 			case "sreset":
 				base := nw.GetContext()
@@ -406,6 +416,12 @@ func c05Exec(c Case, prop string) (outs []string, fails []Failure, tags []string
 				env.db.CreateAccount(ad(1))
 				out = "ok"
 			case "sync":
+				if !env.justFlushed {
+					// (a shrunk case may have lost the Commit: SyncBalances over unflushed changes is not a call the code makes)
+					c[i] = "noop"
+					out = "ok"
+					return
+				}
 				env.db.SyncBalances()
 				env.rawBank = false
 				out = "ok"
@@ -526,6 +542,13 @@ func c05Exec(c Case, prop string) (outs []string, fails []Failure, tags []string
 						c[i] = strings.Join(f, " ")
 					}
 				}
+				if f[2] == "+" && env.db.HasSuicided(ad(1)) {
+					// coins credited to an account that self-destructed earlier in this transaction are destroyed with it
+					// when the transaction ends (Ethereum's rule for value sent to a destructed contract): not generated,
+					// as for `xfer`
+					f[3] = "0"
+					c[i] = strings.Join(f, " ")
+				}
 				if arg(3).Sign() == 0 {
 					out = "ok"
 					return
@@ -561,6 +584,26 @@ func c05Exec(c Case, prop string) (outs []string, fails []Failure, tags []string
 				out = strings.Replace(v, " R ", fmt.Sprintf(" keeper[%s] ", strings.Join(keep, " ")), 1) + fmt.Sprintf(" supply=%s", sup)
 			}
 		}()
+		// The model loads an object's storage when the object is loaded; the code loads each slot at its first read
+		// (originStorage).  The two differ only for slots first read after a Commit deleted the account under a
+		// self-destructed object; the executor keeps to histories where they agree by reading every slot of the
+		// objects an operation has just loaded or created (DESIGN.md §10, "modelled rather than verified").
+		switch f[0] {
+		case "addbal", "subbal", "xfer", "setnonce", "setstate", "suicide", "selfdestruct", "createacct":
+			func() {
+				defer func() { _ = recover() }()
+				nAddr := 1
+				if f[0] == "xfer" || f[0] == "selfdestruct" {
+					nAddr = 2
+				}
+				for j := 1; j <= nAddr && j < len(f); j++ {
+					ad := c05Addr(int(mustBig(f[j]).Int64()))
+					for k := 0; k < c05K; k++ {
+						env.db.GetState(ad, common.BigToHash(big.NewInt(int64(k))))
+					}
+				}
+			}()
+		}
 		outs = append(outs, out)
 	}
 	return
